@@ -447,8 +447,9 @@ func VerifC15_DefaultMaxDelay() {
 	<-entered
 	<-entered
 	var started int32
-	variant := rt.Choice("variant", 4)
-	rt.Region("C15-signal-variant-max-delay-zero", variant >= 2)
+	variant := rt.Choice("variant", 6)
+	rt.Region("C15-signal-variant-max-delay-zero", variant == 2 || variant == 3)
+	low := variant == 1 || variant == 3 || variant == 5
 	go func() {
 		defer wg.Done()
 		fn := func(context.Context) error {
@@ -468,11 +469,20 @@ func VerifC15_DefaultMaxDelay() {
 			done := m.SignalLowPriorityMicroTask(0)
 			atomic.StoreInt32(&started, 1)
 			done()
+		case 4:
+			m.StartMicroTask("third", 0, fn)
+		case 5:
+			m.StartLowPriorityMicroTask("third", 0, fn)
 		}
 	}()
 	time.Sleep(500 * time.Millisecond)
 	rt.Assert(atomic.LoadInt32(&started) == 0, "defaultdelay/not-started-over-the-limit-before-the-default-delay")
-	time.Sleep(3 * time.Second)
+	time.Sleep(1500 * time.Millisecond)
+	// two seconds in: the medium default (1 s) has expired, the low one (3 s) has not
+	if low && variant != 3 {
+		rt.Assert(atomic.LoadInt32(&started) == 0, "defaultdelay/low-priority-not-started-before-its-default-delay")
+	}
+	time.Sleep(1500 * time.Millisecond)
 	rt.Assert(atomic.LoadInt32(&started) == 1, "defaultdelay/started-after-the-default-delay")
 	close(gate)
 	wg.Wait()
